@@ -1,12 +1,12 @@
 package layouta
 
 import (
+	"strings"
 	"bytes"
 	"context"
 	"fmt"
 	"os"
 	"path/filepath"
-	"sync"
 
 	"oss.terrastruct.com/d2/d2graph"
 	"oss.terrastruct.com/d2/d2lib"
@@ -49,13 +49,20 @@ func init() {
 const execPluginDir = "/verif/.scratch/C26/bin"
 
 var (
-	execOnce   sync.Once
+	execTries  int
 	execPlugin d2plugin.Plugin
 	execErr    error
 )
 
+// theExecPlugin sets the plugin up once; a failed set-up (the 10 s `info` limit on a loaded machine) is retried on the
+// next two calls.
 func theExecPlugin() (d2plugin.Plugin, error) {
-	execOnce.Do(func() {
+	if execPlugin != nil || execTries >= 3 {
+		return execPlugin, execErr
+	}
+	execTries++
+	execErr = nil
+	func() {
 		self, err := os.Executable()
 		if err != nil {
 			execErr = err
@@ -76,7 +83,10 @@ func theExecPlugin() (d2plugin.Plugin, error) {
 			return
 		}
 		execPlugin, execErr = d2plugin.FindPlugin(u.Bgctx, ps, "dagrex")
-	})
+		if execErr != nil {
+			execPlugin = nil
+		}
+	}()
 	return execPlugin, execErr
 }
 
@@ -96,9 +106,14 @@ func c26ExecOracle(in string) eng.Res {
 	}
 	p, err := theExecPlugin()
 	if err != nil {
-		panic("harness: cannot set up the exec plugin: " + err.Error())
+		// d2plugin gives a plugin 10 s to answer `info`; on a loaded machine starting the harness binary as a plugin can
+		// take longer. That says nothing about the property: the input is counted as not evaluated.
+		return eng.OK("inconclusive:exec-plugin-did-not-start:"+errClass(err), false)
 	}
-	if info, _ := p.Info(u.Bgctx); info == nil || info.Type != "binary" {
+	if info, ierr := p.Info(u.Bgctx); info == nil || info.Type != "binary" {
+		if ierr != nil {
+			return eng.OK("inconclusive:exec-plugin-info-failed:"+errClass(ierr), false)
+		}
 		panic("harness: dagrex did not resolve to a binary plugin")
 	}
 	opts := &d2lib.CompileOptions{
@@ -110,6 +125,9 @@ func c26ExecOracle(in string) eng.Res {
 	}
 	d2, _, err := d2lib.Compile(u.Bgctx, src, opts, &d2svg.RenderOpts{})
 	if err != nil {
+		if m := err.Error(); strings.Contains(m, "signal: killed") || strings.Contains(m, "deadline exceeded") || strings.Contains(m, "timed out") {
+			return eng.OK("inconclusive:exec-plugin-timeout", false) // d2plugin's own wall-clock limits on a loaded machine
+		}
 		return eng.Bad("exec-protocol-layout-error:"+errClass(err), err.Error())
 	}
 	s1, e1 := d2svg.RenderMultiboard(d1, &d2svg.RenderOpts{})
